@@ -271,6 +271,82 @@ static void edge_far_family(void)
 					}
 }
 
+/* ---- near-default headers: the decoder recognises ISA-L's own default dynamic header by comparing the input with it and then
+ * installs pregenerated tables. Enumerated here: every header that differs from the default one by ONE or TWO bits within its last 64
+ * bits and that the reference still parses as a valid, complete code (e.g. two neighbouring symbols swapping code lengths). Each gets a
+ * body coded with ITS OWN codes (literals, a short match, far matches through distance symbols 28/29), placed byte-aligned behind a
+ * stored block and followed by enough input for the recognition shortcut to be tried. ISA-L must decode it like the reference. ---- */
+extern struct isal_hufftables hufftables_default;
+static void neardefault_part(void)
+{
+	static uint8_t hdr[ISAL_DEF_MAX_HDR_SIZE + 8], strm[70000 + ISAL_DEF_MAX_HDR_SIZE + 4096], probe[ISAL_DEF_MAX_HDR_SIZE + 64];
+	static struct ri_result pr;
+	static uint8_t ptmp[4096];
+	size_t hbits = (size_t)hufftables_default.deflate_hdr_count * 8 + hufftables_default.deflate_hdr_extra_bits;
+	memset(hdr, 0, sizeof hdr);
+	memcpy(hdr, hufftables_default.deflate_hdr, hufftables_default.deflate_hdr_count + 1);
+	if (hbits < 80)
+		v_broken("default header too short");
+	static struct gstream g;
+	static uint8_t gx[400];
+	uint64_t unit = 61000;
+	long tried = 0, valid = 0;
+	size_t lo = hbits - 64;
+	for (long b1 = -1; b1 < 64; b1++)
+		for (long b2 = b1 + 1; b2 <= 64; b2++) {
+			/* b1 == -1: no first flip; b2 == 64: no second flip (so (-1,64) is the unmodified default header) */
+			if (!v_mine(unit++))
+				continue;
+			if (nfail > 40 || v_deadline_hit())
+				return;
+			memcpy(probe, hdr, hufftables_default.deflate_hdr_count + 8);
+			if (b1 >= 0) probe[(lo + b1) >> 3] ^= (uint8_t)(1 << ((lo + b1) & 7));
+			if (b2 < 64) probe[(lo + b2) >> 3] ^= (uint8_t)(1 << ((lo + b2) & 7));
+			probe[0] &= ~1; /* BFINAL = 0 */
+			/* clear the bits behind the header, then let the reference parse the header alone */
+			for (size_t i = hbits; i < hbits + 128; i++) probe[i >> 3] &= (uint8_t)~(1 << (i & 7));
+			struct ri_opts o;
+			memset(&o, 0, sizeof o);
+			pr.out = ptmp; pr.out_cap = sizeof ptmp;
+			ref_inflate(probe, hufftables_default.deflate_hdr_count + 16, &o, &pr);
+			tried++;
+			if (pr.nblocks < 1 || pr.blk[0].type != 2 || pr.blk[0].hdr_end_bit != hbits || (pr.verdict == RI_INVALID && pr.cls == RC_BLOCK) || pr.blk[0].ll_incomplete || pr.blk[0].d_incomplete)
+				continue;
+			uint8_t *ll = pr.blk[0].ll_len, *dl = pr.blk[0].d_len;
+			if (!ll['a'] || !ll['b'] || !ll[256] || !ll[257] || !ll[285] || !dl[0] || !dl[28] || !dl[29])
+				continue;
+			valid++;
+			/* stream: stored filler (33000 bytes), then the dynamic block with this header and a body in its own codes */
+			struct bw w;
+			bw_init(&w, strm, sizeof strm);
+			size_t P = 33000;
+			gen_stored(&w, 0, gs_pre, (int)P, 0);
+			for (size_t i = 0; i < hbits; i++)
+				bw_bit(&w, i == 0 ? 1 : (probe[i >> 3] >> (i & 7)) & 1); /* BFINAL = 1 */
+			uint16_t llc[288], dc[32];
+			uint8_t l2[288] = { 0 }, d2[32] = { 0 };
+			memcpy(l2, ll, 288); memcpy(d2, dl, 32);
+			gen_canon(l2, 288, llc); gen_canon(d2, 32, dc);
+			struct tok t[8] = { { 0, 'a', 0 }, { 0, 'b', 0 }, { 3, 0, 1 }, { 258, 0, 16385 }, { 4, 0, 24577 }, { 5, 0, 32768 }, { 3, 0, 20000 }, { 0, 'a', 0 } };
+			gen_tokens(&w, t, 8, l2, llc, d2, dc, 1);
+			/* expected output by simulation */
+			static uint8_t ex[34000];
+			memcpy(ex, gs_pre, P);
+			size_t q = P;
+			for (int i = 0; i < 8; i++) {
+				if (!t[i].len) { ex[q++] = (uint8_t)t[i].lit; continue; }
+				for (int j = 0; j < t[i].len; j++, q++) ex[q] = ex[q - t[i].dist];
+			}
+			g.body = strm; g.blen = bw_bytes(&w); g.end_bit = w.bit; g.x = ex; g.xlen = q; g.zlib_ok = 1; g.nblocks = 2;
+			(void)gx;
+			snprintf(g.desc, sizeof g.desc, "near-default header (ISA-L default header with bits %ld,%ld of its last 64 flipped; valid complete code) + stored(33000)", b1, b2 < 64 ? b2 : -1);
+			full_modes = 0;
+			check_stream(&g, NULL);
+		}
+	v_count("near_default_headers_tried", tried);
+	v_count("near_default_headers_valid", valid);
+}
+
 int main(int argc, char **argv)
 {
 	v_init(argc, argv, "C02");
@@ -287,6 +363,12 @@ int main(int argc, char **argv)
 			v_sample("window-edge internal-window: F1 dyn-balanced[La] behind a stored filler of 65536 bytes, junk=5000, cpu=avx2: the literal and the end-of-block code share one lookup entry and the internal window is full exactly in front of it");
 			v_note("edge part: every output position of every small token stream is made to coincide with the 65536-byte internal window edge (filler length sweep) and with the end of a 70000+e byte first caller buffer (direct-mode decode)");
 		}
+		return v_finish();
+	}
+	if (v_part && !strcmp(v_part, "neardefault")) {
+		neardefault_part();
+		if (v_shard == 0)
+			v_note("neardefault part: all 1- and 2-bit variations of the last 64 bits of ISA-L's default dynamic header that remain valid complete codes, each with a body in its own codes behind a stored block, decoded by every API / kernel / trailing-junk combination and compared with the reference");
 		return v_finish();
 	}
 	if (v_part && strcmp(v_part, "streams"))
